@@ -18,8 +18,19 @@ class TlcError(Exception):
     pass
 
 
+CREATED = []          # work directories made by this process (removed when the check ends: disk space is limited)
+
+
+def cleanup():
+    for d in CREATED:
+        shutil.rmtree(d, ignore_errors=True)
+    del CREATED[:]
+
+
 def workdir(name, clean=True):
     d = os.path.join(WORK, name)
+    if d not in CREATED:
+        CREATED.append(d)
     if clean and os.path.isdir(d):
         shutil.rmtree(d, ignore_errors=True)
     os.makedirs(d, exist_ok=True)
